@@ -240,3 +240,61 @@ def ok(self, matrix, vector):
 def axis_self_check() -> Tuple[int, int]:
     t = ast.parse(AXIS_CONTROL)
     return len(axis_role_misuse(t.body[0])), len(axis_role_misuse(t.body[1]))
+
+
+# --------------------------------------------------------------------------- zip of a filtered with an unfiltered sequence
+def _is_filtered_seq(e: ast.AST, fn: ast.AST, res) -> bool:
+    for v in res(e):
+        if isinstance(v, (ast.ListComp, ast.GeneratorExp)) and any(g.ifs for g in v.generators):
+            return True
+        if isinstance(v, ast.Call) and u(v.func) in ("tuple", "list") and v.args and isinstance(v.args[0], (ast.ListComp, ast.GeneratorExp)) and any(g.ifs for g in v.args[0].generators):
+            return True
+        if isinstance(v, ast.Call) and u(v.func) == "filter":
+            return True
+    return False
+
+
+def _is_raw_payload_seq(e: ast.AST, res) -> bool:
+    """a list read straight from a response dict: x['result']['counts'], x[...]['data'], x[...]['elements']"""
+    for v in res(e):
+        if isinstance(v, ast.Subscript) and isinstance(v.slice, ast.Constant) and v.slice.value in ("counts", "data", "elements", "categories"):
+            return True
+    return False
+
+
+def zip_filter_mismatch(fn: ast.AST) -> List[Tuple[int, str]]:
+    """zip(A, B) where A was FILTERED (a comprehension with a condition) and B is a raw payload list: the pairs line up only
+    while the items filtered out of A stand at the END of B (zip then merely truncates them); anywhere else every later
+    pair is shifted."""
+    from .stmts import resolver
+
+    res = resolver(fn, multi=True)
+    out = []
+    for n in ast.walk(fn):
+        if isinstance(n, ast.Call) and isinstance(n.func, ast.Name) and n.func.id == "zip" and len(n.args) >= 2:
+            filt = [a for a in n.args if _is_filtered_seq(a, fn, res)]
+            raw = [a for a in n.args if _is_raw_payload_seq(a, res) and not _is_filtered_seq(a, fn, res)]
+            if filt and raw:
+                out.append((n.lineno, f"zip({', '.join(u(a)[:40] for a in n.args)}): {u(filt[0])[:30]} is filtered, {u(raw[0])[:40]} is the whole payload list"))
+    return out
+
+
+ZIP_CONTROL = '''
+def augment(self, cube_resp, elements):
+    values = [el.get("value") for el in cube_resp["result"]["dimensions"][0]["type"]["elements"] if isinstance(el.get("value"), (int, str))]
+    positions = [item["id"] for item in elements if item["value"] in values]
+    data = [0] * 5
+    for pos, value in zip(positions, cube_resp["result"]["counts"]):
+        data[pos] = value
+    return data
+
+def ok(self, cube_resp, elements):
+    values = [el.get("value") for el in cube_resp["result"]["dimensions"][0]["type"]["elements"]]
+    for value, count in zip(values, cube_resp["result"]["counts"]):
+        pass
+'''
+
+
+def zip_self_check() -> Tuple[int, int]:
+    t = ast.parse(ZIP_CONTROL)
+    return len(zip_filter_mismatch(t.body[0])), len(zip_filter_mismatch(t.body[1]))
